@@ -5,9 +5,13 @@ from ..ref import core_packets as ref
 from .codec import codec_for
 
 
-class ProtocolViolation(Exception):
-    """The client sent something the script did not expect (recorded by the
-    caller as an observation; the check decides what it means)."""
+from ..ref.framing import FrameError
+
+
+class ProtocolViolation(FrameError):
+    """The client sent something the script does not admit at this point (an
+    unparseable or unexpected frame).  Recorded by the server like a framing
+    error: it is a fact about the client's bytes, not a script failure."""
 
 
 def read_handshake(io, timeout=5.0):
@@ -17,7 +21,11 @@ def read_handshake(io, timeout=5.0):
     pid, payload, _info = f
     if pid != 0:
         raise ProtocolViolation('first frame id %d, not a handshake' % pid)
-    return ref.decode('handshake', 47, payload)   # layout identical everywhere
+    try:
+        return ref.decode('handshake', 47, payload)   # same layout everywhere
+    except (EOFError, ValueError, UnicodeDecodeError) as e:
+        raise ProtocolViolation('first frame is not a well-formed handshake: '
+                                '%r (payload %s)' % (e, bytes(payload[:24]).hex()))
 
 
 def status_exchange(io, status_obj, raw_json=None, answer_ping=True):
